@@ -2,7 +2,7 @@
    Theorems only; model Procs/OfflineMode.v (repairOfflineMode,
    repairMasterOfflineMode, repairSlaveOfflineMode, OfflineModeFilter). *)
 From Coq Require Import ZArith NArith Bool List.
-From Mysync Require Import Gtid.Interval Gtid.GtidSet Base.Prog Base.Config Procs.NodeOps Procs.ActiveNodes Procs.Switchover Procs.OfflineMode Proofs.OfflineProofs.
+From Mysync Require Import Gtid.Interval Gtid.GtidSet Base.Prog Base.Config Procs.NodeOps Procs.ActiveNodes Procs.Switchover Procs.OfflineMode Proofs.OfflineProofs Procs.Repair Env.World Proofs.OfflineWorld.
 Import ListNotations.
 Open Scope Z_scope.
 
@@ -53,3 +53,23 @@ Theorem C17_master_marked_for_recovery_stays_offline : forall h ns e1 tr1 v o,
   ev_call e1 = DcsGet (PRecovery h) /\ tr1 = [].
 Proof. exact master_marked_stays_offline. Qed.
 Print Assumptions C17_master_marked_for_recovery_stays_offline.
+
+(* where it leads, executed against the fault-free server of the world model (Env/World.v, tied to the fake server by the
+   K4 correspondence): an online replica whose lag exceeds the enable threshold - master writable, replication not
+   permanently broken, the zone cap allowing it - IS in offline mode after the pass and the zone's counter of this pass
+   went up by one; a replica that is online and within the threshold is not touched at all (no call is issued) *)
+Theorem C17_lagging_replica_goes_offline : forall cfg env h ns ms pending lag w,
+  w_host w = h -> slave_lag ns = Some lag -> ns_offline ns = false -> ns_ro ms = false ->
+  (c_offline_enable_lag cfg <? lag) = true -> can_set_offline cfg env h pending = true -> perm_broken ns = false ->
+  wout (wrun (repair_slave_offline cfg env h ns ms pending) w) =
+    Done (assoc_set (zone_of env h) (pending_get (zone_of env h) pending + 1) pending) /\
+  s_offline (w_srv (wworld (wrun (repair_slave_offline cfg env h ns ms pending) w))) = true /\
+  s_ro (w_srv (wworld (wrun (repair_slave_offline cfg env h ns ms pending) w))) = s_ro (w_srv w).
+Proof. exact lagging_replica_goes_offline. Qed.
+Print Assumptions C17_lagging_replica_goes_offline.
+
+Theorem C17_healthy_online_replica_is_not_touched : forall cfg env h ns ms pending lag w,
+  slave_lag ns = Some lag -> ns_offline ns = false -> (c_offline_enable_lag cfg <? lag) = false -> perm_broken ns = false ->
+  wrun (repair_slave_offline cfg env h ns ms pending) w = (Done pending, w, []).
+Proof. exact healthy_replica_stays_online. Qed.
+Print Assumptions C17_healthy_online_replica_is_not_touched.
